@@ -453,7 +453,7 @@ def gen_map_rich_pkg(rng, force=None):
     """map pairs using the features the small state model leaves out: embedded (pointer) structs, `map:"…"` tags,
     mapper functions, manual methods.  Model: the per-type output is an arbitrary function of the type (C08_run_pure);
     checked by AST equality of combined / per-process / permuted runs"""
-    n = rng.choice([2, 3, 3, 4])
+    n = (force or {}).get("n") or rng.choice([2, 3, 3, 4])
     names = list(TYPE_NAMES)
     rng.shuffle(names)
     names = names[:n]
@@ -462,9 +462,23 @@ def gen_map_rich_pkg(rng, force=None):
     dst = ["package dest", ""]
     bodies = {}
     all_types = []
+    allfeats = set()
+    force = force or {}
     for k, nm in enumerate(names):
         feats = set(f for f in ["embed", "ptrembed", "tag", "func", "manual"] if rng.random() < 0.45)
         sf, df = ["\tID int", "\tName string"], ["\tID int", "\tName string"]
+        # a `map:"…"` tag on a field NAME that the other types of the run have as well, untagged: a rename (the destination calls
+        # the field Title) or `map:"-"` (left out).  The tags of one type must not reach the types generated after it
+        r = rng.random()
+        shared = ("rename" if k == 0 else "dash" if k == 1 and n >= 3 else None) if force.get("tagshared") else \
+            ("rename" if r < 0.25 else "dash" if r < 0.35 else None)
+        if shared == "rename":
+            sf[1], df[1] = "\tName string `map:\"Title\"`", "\tTitle string"
+            feats.add("tag-on-shared-name")
+        elif shared == "dash":
+            sf[1] = "\tName string `map:\"-\"`"
+            feats.add("dash-on-shared-name")
+        allfeats.update(f for f in feats if f.endswith("shared-name"))
         if "func" in feats:
             src_first = ["\tConv"]
             sf.append("\tCount int")
@@ -501,6 +515,8 @@ def gen_map_rich_pkg(rng, force=None):
         src_txt = src_txt.replace("package src\n", "package src\n\nimport \"@DEST@\"\n", 1)   # the case's destination package
     files = {"src/s.go": src_txt, "dest/d.go": "\n".join(dst)}
     feats = {"map": 1, "map-rich": 1, "types-%d" % n: 1}
+    for f in allfeats:
+        feats["map-" + f] = 1
     return {"cmd": "map", "flags": ["-path=../dest"], "files": files, "cwd": "src", "gofile": "s.go", "types": names,
             "all_types": all_types, "setup": [], "model": simple_model(bodies), "feats": feats, "star": False, "rich": True}
 
